@@ -1234,7 +1234,7 @@ def gen_cases(ctx):
                                       {"k": "slice", "args": [1, -1, 0]},
                                       {"k": "runnonebad"}, {"k": "runnone", "f": "inc"},
                                       {"k": "runnamed", "el": {"k": "call", "f": "inc"}},
-                                      {"k": "runnamed", "el": {"k": "reverse"}},
+                                      {"k": "runnamed", "el": {"k": "reverse"}}, {"k": "runnamed", "el": {"k": "junk"}},
                                       {"k": "seq", "els": [{"k": "call", "f": "inc"}, {"k": "setctx"}, {"k": "count", "name": "n"},
                                                            {"k": "junk"}]},
                                       {"k": "split", "branches": [[{"k": "junk"}]], "bufsize": 1},
